@@ -42,6 +42,10 @@ func (e *FunctionCallError) Error() string {
 
 const errorType = "error"
 
+// errorInterfaceType is the predeclared error interface. Comparing type names is not enough: any type can be
+// called "error" when it shadows the predeclared identifier.
+var errorInterfaceType = reflect.TypeOf((*error)(nil)).Elem()
+
 // NewCallableFunction creates a CallableFunction schema type for the strictly typed function.
 //
 // - The handler types must match the input and output types specified.
@@ -96,7 +100,7 @@ func validateTypedReturnFunc(parsedHandler reflect.Value, errorExpected bool, ou
 	if errorExpected {
 		// Validate the last type as error
 		handlerLastTypeName := parsedHandler.Type().Out(returnCount - 1).Name()
-		if handlerLastTypeName != errorType {
+		if handlerLastTypeName != errorType || parsedHandler.Type().Out(returnCount-1) != errorInterfaceType {
 			return fmt.Errorf("expected last return type from handler to be error, but instead found '%s'", handlerLastTypeName)
 		}
 	}
@@ -141,7 +145,7 @@ func NewDynamicCallableFunction(
 	switch {
 	case returnCount != 2:
 		return nil, fmt.Errorf("expected dynamic handler to have two returns, one with any type, and one with error type, but got %d return types", returnCount)
-	case parsedHandler.Type().Out(1).Name() != errorType:
+	case parsedHandler.Type().Out(1).Name() != errorType || parsedHandler.Type().Out(1) != errorInterfaceType:
 		return nil, fmt.Errorf("expected additional return type to be an error return, but got %s", parsedHandler.Type().Out(1).Name())
 	case parsedHandler.Type().Out(0).Kind() != reflect.Interface:
 		return nil, fmt.Errorf("expected 'any' return type for handler, but got %s", parsedHandler.Type().Out(0))
